@@ -53,7 +53,7 @@ def neighbours(ctx, sx, sy, d, r_m):
 MARGIN_R = 1.0e-3
 
 
-def margin_pass(flavour, name, items, r_m=MARGIN_R):
+def margin_pass(flavour, name, items, r_m=MARGIN_R, position_noise_m=0.0):
     """items: list of dicts {world: path, ctx, pt: (sx,sy,d), prop: (a,b,c), delta: float (largest disagreement in that block)}
     -> list of (excused: bool, info)"""
     if not items:
@@ -99,6 +99,10 @@ def margin_pass(flavour, name, items, r_m=MARGIN_R):
                 spread = max(spread, max(col) - min(col))
             if spread >= 0.5 * items[i]['delta']:
                 out[i] = (True, 'jump-of-%g-within-%gm' % (spread, r_m))
+            elif position_noise_m > 0 and items[i]['delta'] <= spread * (position_noise_m / r_m):
+                # the value changes by `spread` over r_m: a disagreement this small is a displacement of the evaluation point by less than
+                # position_noise_m (the resolution of the trench closest-point solver), not another value
+                out[i] = (True, 'within-position-noise: spread %g within %g m, disagreement %g' % (spread, r_m, items[i]['delta']))
             else:
                 out[i] = (False, 'smooth: spread %g within %g m, disagreement %g' % (spread, r_m, items[i]['delta']))
     return out
